@@ -9,4 +9,5 @@ VIEW View
 PROPERTY RoNeverChangesBase
 PROPERTY RoRefusesMutators
 PROPERTY InjectedIsReturned
+PROPERTY BpConfines
 CHECK_DEADLOCK FALSE
